@@ -50,6 +50,7 @@ func runC01(c *Ctx) {
 	ruleSearch(c, "SEARCH", 2)
 	ruleKeyBytes(c)
 	ruleUpdate(c)
+	ruleSnapshot(c)
 }
 
 // C01.UPDATE: every implementation of CipherList.Update stores its parameter into the list field and does not mutate the old list in place.
